@@ -5,6 +5,7 @@ package main
 import (
 	"fmt"
 	"go/ast"
+	"go/token"
 	"go/types"
 	"strings"
 
@@ -302,6 +303,64 @@ func ruleClientReset(c *RC) *RuleResult {
 		r.Sites++
 		r.fail(loopFn.Name+"/no-reset", c.Prog.Pos(loopFn.Decl), "the simulation never calls DBFT.Reset: after its first block every node is quiescent (BlockSent gate) and the chain stops at height 1")
 	}
+	// an event arm that feeds the library must not leave the iteration (continue / goto / labelled break) before the
+	// re-initialisation step that follows the select
+	feedNames := map[string]bool{"OnReceive": true, "OnTimeout": true, "OnTransaction": true, "OnNewTransaction": true}
+	ast.Inspect(loopFn.Decl.Body, func(n ast.Node) bool {
+		var body []ast.Stmt
+		switch x := n.(type) {
+		case *ast.CommClause:
+			body = x.Body
+		case *ast.CaseClause:
+			body = x.Body
+		default:
+			return true
+		}
+		feeds, resets := false, false
+		var escape ast.Node
+		for _, st := range body {
+			depthLoop := 0
+			var walk func(m ast.Node) bool
+			walk = func(m ast.Node) bool {
+				switch y := m.(type) {
+				case *ast.ForStmt, *ast.RangeStmt:
+					depthLoop++
+					ast.Inspect(y.(interface{ Pos() token.Pos }).(ast.Node), func(k ast.Node) bool {
+						if k == m {
+							return true
+						}
+						return walk(k)
+					})
+					depthLoop--
+					return false
+				case *ast.FuncLit:
+					return false
+				case *ast.CallExpr:
+					if f, ok := typeutil.Callee(loopFn.Pkg.TypesInfo, y).(*types.Func); ok {
+						if feedNames[f.Name()] {
+							feeds = true
+						}
+						if f.Name() == "Reset" {
+							if sig := f.Type().(*types.Signature); sig.Recv() != nil && namedName(sig.Recv().Type()) == "DBFT" {
+								resets = true
+							}
+						}
+					}
+				case *ast.BranchStmt:
+					if feeds && !resets && (y.Tok == token.GOTO || y.Tok == token.CONTINUE && (depthLoop == 0 || y.Label != nil) || y.Tok == token.BREAK && y.Label != nil) {
+						escape = y
+					}
+				}
+				return true
+			}
+			ast.Inspect(st, walk)
+		}
+		if escape != nil {
+			r.Sites++
+			r.fail(loopFn.Name+"/reset-skipped", c.Prog.Pos(escape), "an event arm feeds the library and then leaves the iteration before the re-initialisation step: a block accepted while handling that event leaves the node idle forever")
+		}
+		return true
+	})
 	// the event loop handles timer and messages inside the same for loop
 	r.Sites++
 	if len(dbftMethodCalls(loopFn, "OnReceive")) > 0 && len(dbftMethodCalls(loopFn, "OnTimeout")) > 0 {
@@ -453,14 +512,16 @@ func ruleClientConfig(c *RC) *RuleResult {
 // P-REFBLOCK / P-PAYLOAD-VIEW (reference implementation)
 func ruleRefBlock(c *RC) *RuleResult {
 	r := &RuleResult{Rule: "P-REFBLOCK", Kind: "PROV", Doc: "newBlockFromContext passes Timestamp, BlockIndex, PrevHash, Nonce, TransactionHashes to NewBlock's timestamp, index, prevHash, nonce, txHashes; defaultNewConsensusPayload passes BlockIndex, MyIndex, ViewNumber to height, validatorIndex, viewNumber"}
-	check := func(fnName, callee string, want map[string]string) {
-		fn := c.Prog.ByName["internal/consensus:"+fnName]
+	check := func(option, callee string, want map[string]string) {
+		// the factory is whatever consensus.New installs with the option (a role, not a name)
+		fn := c.optionArg(option)
 		target := c.Prog.ByName["internal/consensus:"+callee]
 		r.Sites++
 		if fn == nil || target == nil {
-			r.unresolved(fnName + " / " + callee)
+			r.unresolved("function installed by dbft.With" + option + " in consensus.New / " + callee)
 			return
 		}
+		fnName := fn.Name
 		found := false
 		ast.Inspect(fn.Decl.Body, func(n ast.Node) bool {
 			call, ok := n.(*ast.CallExpr)
@@ -486,9 +547,72 @@ func ruleRefBlock(c *RC) *RuleResult {
 			r.fail(fnName+"/no-call", c.Prog.Pos(fn.Decl), fnName+" does not call "+callee)
 		}
 	}
-	check("newBlockFromContext", "NewBlock", map[string]string{"timestamp": "Timestamp", "index": "BlockIndex", "prevHash": "PrevHash", "nonce": "Nonce", "txHashes": "TransactionHashes"})
-	check("defaultNewConsensusPayload", "NewConsensusPayload", map[string]string{"height": "BlockIndex", "validatorIndex": "MyIndex", "viewNumber": "ViewNumber"})
+	check("NewBlockFromContext", "NewBlock", map[string]string{"timestamp": "Timestamp", "index": "BlockIndex", "prevHash": "PrevHash", "nonce": "Nonce", "txHashes": "TransactionHashes"})
+	check("NewConsensusPayload", "NewConsensusPayload", map[string]string{"height": "BlockIndex", "validatorIndex": "MyIndex", "viewNumber": "ViewNumber"})
+	// the block factory declines (returns nil) only when no proposal is recorded, i.e. TransactionHashes is nil; an
+	// empty proposal (non-nil, length 0) is a legitimate block and must be built
+	if bf := c.optionArg("NewBlockFromContext"); bf != nil {
+		r.Sites++
+		bad, nils, builds := "", 0, 0
+		for _, e := range c.exitsOf(bf) {
+			if len(e.Ret) != 1 {
+				continue
+			}
+			if e.Ret[0].K != KNil {
+				builds++
+				continue
+			}
+			nils++
+			for _, l := range e.TrailL {
+				a := l.A
+				if a.Op == "nn" && !l.Pos && a.A != nil && strings.HasSuffix(a.A.S, ".TransactionHashes") {
+					continue
+				}
+				bad = l.String()
+			}
+		}
+		switch {
+		case builds == 0:
+			r.fail(bf.Name+"/never-builds", c.Prog.Pos(bf.Decl), "the block factory never returns a block")
+		case bad != "":
+			r.fail(bf.Name+"/declines", c.Prog.Pos(bf.Decl), "the block factory returns nil under the condition "+bad+": it may only decline while no proposal is recorded (TransactionHashes == nil); a proposal without transactions could never be committed")
+		default:
+			r.ok(fmt.Sprintf("%s declines only when no proposal is recorded (%d nil path(s))", bf.Name, nils))
+		}
+	}
 	return r
+}
+
+// optionArg: the module function that internal/consensus.New installs through dbft.With<option>(...).
+func (c *RC) optionArg(option string) *FuncInfo {
+	newFn := c.Prog.ByName["internal/consensus:New"]
+	if newFn == nil {
+		return nil
+	}
+	info := newFn.Pkg.TypesInfo
+	var res *FuncInfo
+	ast.Inspect(newFn.Decl.Body, func(n ast.Node) bool {
+		call, ok := n.(*ast.CallExpr)
+		if !ok || len(call.Args) != 1 {
+			return true
+		}
+		f, ok := typeutil.Callee(info, call).(*types.Func)
+		if !ok || f.Name() != "With"+option || f.Pkg() == nil || f.Pkg().Path() != modPath {
+			return true
+		}
+		switch a := ast.Unparen(call.Args[0]).(type) {
+		case *ast.Ident:
+			if fo, ok := info.Uses[a].(*types.Func); ok {
+				res = c.Prog.Funcs[fo.Origin()]
+			}
+		case *ast.SelectorExpr:
+			if fo, ok := info.Uses[a.Sel].(*types.Func); ok {
+				res = c.Prog.Funcs[fo.Origin()]
+			}
+		}
+		return true
+	})
+	return res
 }
 
 // enclosingClauses: select/switch clauses whose body encloses the node.
